@@ -181,12 +181,14 @@ class Run:
         known = load_known(self.pid)
         unknown = []
         matched = {}
+        matched_kf = {}
         for kf, wit in self.violations:
             e = match_known(known, kf)
             if e is None:
                 unknown.append((kf, wit))
             else:
                 matched.setdefault(e["id"], [e, 0])[1] += 1
+                matched_kf.setdefault(e["id"], set()).add(json.dumps(kf, sort_keys=True, default=str))
         # replay files for unknown violations (deduplicated by classification)
         replay_paths = []
         rdir = os.path.join(OUT, "replay", self.pid)
@@ -213,6 +215,7 @@ class Run:
             "distinct_observed": {k: len(v) for k, v in sorted(self.sets.items())},
             "observed_values": {k: sorted(map(str, v))[:60] for k, v in sorted(self.sets.items()) if len(v) <= 200},
             "known_findings_matched": {k: v[1] for k, v in matched.items()},
+            "known_findings_matched_classifications": {k: sorted(v)[:12] for k, v in matched_kf.items()},
             "inconclusive_cases": len(self.inconclusive),
             "inconclusive_reasons": sorted(set(self.inconclusive))[:10],
         }
